@@ -105,6 +105,13 @@ fn tiny_recv(t: &mut Tiny, n: usize) -> Result<Result<Vec<u8>, i32>, Stop> {
     Ok(Ok(out))
 }
 
+fn conn_fd(c: &Conn) -> i32 {
+    match c {
+        Conn::T(t) => t.raw(),
+        Conn::R(r) => r.fd(),
+    }
+}
+
 fn conn_send(c: &mut Conn, b: &[u8]) -> Result<(), Stop> {
     match c {
         Conn::T(t) => tiny_send(t, b),
@@ -197,6 +204,8 @@ fn inner(c: &OrderCase) -> Result<CaseReport, Stop> {
     let cap_pending = if tcp { 8 } else { (flood + 8).max(8) };
 
     let mut clients: Vec<Option<Conn>> = Vec::new();
+    // TCP: the local address of every client the case made (a connection from anybody else is not the case's)
+    let mut client_addrs: Vec<Option<(u32, u16)>> = Vec::new();
     let mut client_closed: Vec<bool> = Vec::new();
     let mut servers: Vec<Option<Conn>> = Vec::new();
     let mut pending = 0usize;
@@ -293,6 +302,7 @@ fn inner(c: &OrderCase) -> Result<CaseReport, Stop> {
                     }
                 };
                 conn_send(&mut conn, &token(idx))?;
+                client_addrs.push(tcp_name(conn_fd(&conn), false));
                 clients.push(Some(conn));
                 client_closed.push(false);
                 pending += 1;
@@ -325,6 +335,7 @@ fn inner(c: &OrderCase) -> Result<CaseReport, Stop> {
                     let s = r?;
                     match cl {
                         Ok(fd) => {
+                            client_addrs.push(tcp_name(fd.fd(), false));
                             clients.push(Some(Conn::R(fd)));
                             client_closed.push(false);
                         }
@@ -366,6 +377,13 @@ fn inner(c: &OrderCase) -> Result<CaseReport, Stop> {
     let mut paired_client_of_server: Vec<Option<usize>> = vec![None; servers.len()];
     for (j, s) in servers.iter_mut().enumerate() {
         let Some(s) = s else { continue };
+        if c.tcp {
+            if let Some(from) = tcp_name(conn_fd(s), true) {
+                if !client_addrs.contains(&Some(from)) {
+                    return Err(Stop::Inconclusive(format!("accepted connection {j} comes from a client the case did not make (a foreign client on the listener's port)")));
+                }
+            }
+        }
         let got = conn_recv(s, 4)?;
         let bytes = match got {
             Ok(b) => b,
